@@ -25,8 +25,39 @@ type frameCase struct {
 	AltFOpts evid.Hex `json:"alt_fopts,omitempty"`
 }
 
+// dirty frames: what a receive loop that reuses one PHYPayload variable has decoded before
+var dirty = [][]byte{
+	{0x40, 4, 3, 2, 1, 0x83, 0x34, 0x12, 0x02, 0x03, 0x05, 0x2a, 0xde, 0xad, 0xbe, 0xef, 1, 2, 3, 4}, // uplink, 3 FOpts bytes, FPort 42, payload
+	{0x60, 4, 3, 2, 1, 0x20, 0x01, 0x00, 0x00, 0x06, 9, 9, 9, 9},                                     // downlink, FPort 0 with a command
+	{0x00, 1, 2, 3, 4, 5, 6, 7, 8, 8, 7, 6, 5, 4, 3, 2, 1, 0x34, 0x12, 1, 2, 3, 4},                   // join-request
+}
+
 func decodeBack(b []byte, text bool) (*ref.Frame, error) {
+	f1, err := decodeBackInto(b, text, -1)
+	if err != nil {
+		return nil, err
+	}
+	// the same decode into a value that decoded another frame before must give the same frame
+	for i := range dirty {
+		f2, err := decodeBackInto(b, text, i)
+		if err != nil {
+			return nil, fmt.Errorf("into a PHYPayload that decoded %x before: %v", dirty[i], err)
+		}
+		if f1.FPort != f2.FPort || !bytes.Equal(f1.Encode(), f2.Encode()) {
+			return nil, fmt.Errorf("decoding into a PHYPayload that decoded %x before gives a frame standing for %x (FPort %d), into a fresh one %x (FPort %d)", dirty[i], f2.Encode(), f2.FPort, f1.Encode(), f1.FPort)
+		}
+	}
+	return f1, nil
+}
+
+func decodeBackInto(b []byte, text bool, dirtyIdx int) (*ref.Frame, error) {
 	var q lorawan.PHYPayload
+	if dirtyIdx >= 0 {
+		if err := q.UnmarshalBinary(append([]byte{}, dirty[dirtyIdx]...)); err != nil {
+			return nil, fmt.Errorf("harness: dirty frame %d does not decode: %v", dirtyIdx, err)
+		}
+		_ = q.DecodeFOptsToMACCommands()
+	}
 	if text {
 		if err := q.UnmarshalText([]byte(base64.StdEncoding.EncodeToString(b))); err != nil {
 			return nil, fmt.Errorf("UnmarshalText: %v", err)
@@ -253,6 +284,6 @@ func TestProp(t *testing.T) {
 		}, checkFrame)
 
 	evid.Rapid(r, t, "frames",
-		"rapid: MType uniform over the 8 types; data frames with all FCtrl flags, boundary-biased 32-bit FCnt, FOpts = generated command sequence of a drawn exact length 0..15, FPort absent/0/1..255, FRMPayload 0..242 bytes (commands on port 0); join-request, rejoin 0/1/2, join-accept (CFList absent/channels/masks, through encrypt->decode->decrypt), proprietary. Oracle: encoder output == wire model; decode (binary and base64) + command decode gives a frame standing for the same bytes; a decoded data frame whose FOpts are then replaced by another command sequence (another length) encodes to the wire model of the changed frame. Non-trivial: data frame with FOpts, FPort and >16 payload bytes, or join/rejoin, or join-accept with CFList.",
+		"rapid: MType uniform over the 8 types; data frames with all FCtrl flags, boundary-biased 32-bit FCnt, FOpts = generated command sequence of a drawn exact length 0..15, FPort absent/0/1..255, FRMPayload 0..242 bytes (commands on port 0); join-request, rejoin 0/1/2, join-accept (CFList absent/channels/masks, through encrypt->decode->decrypt), proprietary. Oracle: encoder output == wire model; decode (binary and base64) + command decode gives a frame standing for the same bytes, also when decoded into a PHYPayload variable that decoded another frame before; a decoded data frame whose FOpts are then replaced by another command sequence (another length) encodes to the wire model of the changed frame. Non-trivial: data frame with FOpts, FPort and >16 payload bytes, or join/rejoin, or join-accept with CFList.",
 		120000, 6000000, genFrame, checkFrame)
 }
